@@ -398,7 +398,7 @@ theorem relative_to_explicit (oka : Grammar.OkAuth G) (we : Grammar.OkWE G) (a b
     (hsch : (split a).scheme = (split b).scheme)
     (haa : (split a).authority = some aa) (hab : (split b).authority = some ab) (hauth : authKey aa = authKey ab)
     (hpa : isAbs (split a).path = true) (hpb : isAbs (split b).path = true ∨ (split b).path = [])
-    (hne : nsegs (split a).path ≠ [])
+    (hLne0 : relSegs a b ≠ [])
     (hcls : (!(remainder a b).2.2 && (remainder a b).1.head? == some []) = false)
     (hnsp : (((split a).query.isSome || (split a).fragment.isSome) &&
       ((split a).query.isSome || (split b).query.isNone) &&
@@ -461,12 +461,12 @@ theorem relative_to_explicit (oka : Grammar.OkAuth G) (we : Grammar.OkWE G) (a b
     have hcls' := hcls
     unfold remainder at hcls'
     simp only [hcls', Bool.false_eq_true, if_false]
-    unfold relSegs remainder at hnsp ⊢
-    obtain ⟨ca, cb, hA, hB, _, _, hssne⟩ := dropCommon_spec (nsegs (split a).path)
+    unfold relSegs remainder at hnsp hLne0 ⊢
+    obtain ⟨ca, cb, hA, hB, _, _, _⟩ := dropCommon_spec (nsegs (split a).path)
       (nsegs (Path.parent_or_empty (split b).path)) hws hwb
-    generalize hd : Ref.dropCommon (nsegs (split a).path) (nsegs (Path.parent_or_empty (split b).path)) = d at hnsp hA hB hssne
+    generalize hd : Ref.dropCommon (nsegs (split a).path) (nsegs (Path.parent_or_empty (split b).path)) = d at hnsp hA hB hLne0
     obtain ⟨ss, bs, cm⟩ := d
-    simp only [] at hnsp hA hB hssne ⊢
+    simp only [] at hnsp hA hB hLne0 ⊢
     -- every pushed segment is free of `/`, `?`, `#`
     have hsegA : ∀ s ∈ nsegs (split a).path, cSlash ∉ s ∧ PathText s := by
       intro s hs
@@ -498,9 +498,7 @@ theorem relative_to_explicit (oka : Grammar.OkAuth G) (we : Grammar.OkWE G) (a b
       have := ref_path_recompose _ wf
       rwa [recompose_pathOnly] at this
     -- something was pushed: no closing empty segment
-    have hLne : (bs.map fun _ => segDotDot) ++ ss ≠ [] := by
-      intro e
-      exact hssne hne (List.append_eq_nil_iff.mp e).2
+    have hLne : (bs.map fun _ => segDotDot) ++ ss ≠ [] := hLne0
     have hRne := renderRel_ne_nil _ hLne (fun s hs => (hLall s hs).1)
     have hnem : Path.is_empty (renderRel ((bs.map fun _ => segDotDot) ++ ss)) = false := by
       rw [is_empty_rel hrelp]
@@ -560,7 +558,15 @@ theorem relative_roundtrip (oka : Grammar.OkAuth G) (we : Grammar.OkWE G) (a b a
   have hbR : Matches G.reference b := Matches.altL hb
   obtain ⟨vA, wA⟩ := split_valid G ok a haR
   obtain ⟨vB, wB⟩ := split_valid G ok b hbR
-  have hrel := relative_to_explicit G ok okp oka we a b aa ab haR hbR hsch haa hab hauth hpa hpb hne hcls hnsp
+  have hLne0 : relSegs a b ≠ [] := by
+    have hweA0 : wellEscaped (split a).path = true := path_we G we _ vA
+    have hweB0 : wellEscaped (split b).path = true := path_we G we _ vB
+    obtain ⟨_, _, _, _, _, _, h7⟩ := dropCommon_spec (nsegs (split a).path) (nsegs (Path.parent_or_empty (split b).path))
+      (nsegs_we _ hweA0) (nsegs_we _ ((parent_or_empty_props (split b).path).1 hweB0))
+    unfold relSegs remainder
+    intro e
+    exact h7 hne (List.append_eq_nil_iff.mp e).2
+  have hrel := relative_to_explicit G ok okp oka we a b aa ab haR hbR hsch haa hab hauth hpa hpb hLne0 hcls hnsp
   obtain ⟨r', er', vr'⟩ := relative_to_total G ok okp oka we a b haR hbR
   rw [hrel] at er'
   simp only [Option.some.injEq] at er'
@@ -772,6 +778,137 @@ theorem relative_roundtrip (oka : Grammar.OkAuth G) (we : Grammar.OkWE G) (a b a
   rw [habsT, hsg, nsegsOf_dotFree _ _ hXdf]
   have hAn : nsegsOf (isAbs (split a).path) (segs (split a).path) = ca ++ ss := hA
   rw [hAn, List.map_append, List.map_append, hcab]
+
+/-- **the round trip when the target is the root** of the same authority and the base lies below
+it: the reference is `..` repeated, and resolving it climbs back to `/` -/
+theorem relative_roundtrip_root (oka : Grammar.OkAuth G) (we : Grammar.OkWE G) (a b aa ab : Text)
+    (ha : Matches G.full a) (hb : Matches G.full b)
+    (hsch : (split a).scheme = (split b).scheme)
+    (haa : (split a).authority = some aa) (hab : (split b).authority = some ab) (hauth : authKey aa = authKey ab)
+    (hpa : isAbs (split a).path = true) (hpb : isAbs (split b).path = true ∨ (split b).path = [])
+    (hroot : nsegs (split a).path = [])
+    (hbelow : nsegs (Path.parent_or_empty (split b).path) ≠ [])
+    (hnsp : (((split a).query.isSome || (split a).fragment.isSome) &&
+      ((split a).query.isSome || (split b).query.isNone) &&
+      some (renderRel (relSegs a b)) == Path.last (split b).path) = false) :
+    ∃ r t, Ref.relative_to a b = some r ∧ Ref.resolve r b = some t ∧ key t = key a := by
+  have haR : Matches G.reference a := Matches.altL ha
+  have hbR : Matches G.reference b := Matches.altL hb
+  obtain ⟨vA, wA⟩ := split_valid G ok a haR
+  obtain ⟨vB, wB⟩ := split_valid G ok b hbR
+  -- nothing is compared: the remainder is the whole directory of the base
+  have hrem : remainder a b = ([], nsegs (Path.parent_or_empty (split b).path), false) := by
+    unfold remainder
+    rw [hroot]
+    cases nsegs (Path.parent_or_empty (split b).path) <;> rfl
+  have hLdef : relSegs a b = (nsegs (Path.parent_or_empty (split b).path)).map fun _ => segDotDot := by
+    unfold relSegs; rw [hrem]; simp
+  have hLne0 : relSegs a b ≠ [] := by
+    rw [hLdef]
+    intro e
+    exact hbelow (List.map_eq_nil_iff.mp e)
+  have hcls : (!(remainder a b).2.2 && (remainder a b).1.head? == some []) = false := by rw [hrem]; rfl
+  have hrel := relative_to_explicit G ok okp oka we a b aa ab haR hbR hsch haa hab hauth hpa hpb hLne0 hcls hnsp
+  obtain ⟨r', er', vr'⟩ := relative_to_total G ok okp oka we a b haR hbR
+  rw [hrel] at er'
+  simp only [Option.some.injEq] at er'
+  have hptB : PathText (split b).path := pathText_of_wf _ wB
+  have hBab : (split b).path = [] ∨ ∃ q, (split b).path = cSlash :: q := by
+    rcases hpb with hpb | hpb
+    · right
+      cases hpp' : (split b).path with
+      | nil => rw [hpp'] at hpb; simp [isAbs] at hpb
+      | cons c t =>
+        rw [hpp'] at hpb
+        have : c = cSlash := by simpa [isAbs] using hpb
+        exact ⟨t, by rw [this]⟩
+    · exact .inl hpb
+  have he0 : nsegs (Path.parent_or_empty (split b).path) = nsegsOf true (segs (split b).path).dropLast := by
+    rcases hBab with e | ⟨q, hqb⟩
+    · rw [e]; decide
+    · rw [hqb]
+      obtain ⟨⟨k, hk⟩, habs, _⟩ := parent_segs q
+      unfold nsegs
+      rw [habs, hk, nsegsOf_dots]
+  have hdfB : DotFree (nsegs (Path.parent_or_empty (split b).path)) := by rw [he0]; exact nsegsOf_abs_dotFree _
+  obtain ⟨bs, hbs⟩ : ∃ bs, bs = nsegs (Path.parent_or_empty (split b).path) := ⟨_, rfl⟩
+  rw [← hbs] at hLdef hbelow hdfB
+  obtain ⟨L, hL⟩ : ∃ L, L = bs.map fun _ => segDotDot := ⟨_, rfl⟩
+  rw [hLdef, ← hL] at hrel er' hLne0
+  have hLns : ∀ s ∈ L, cSlash ∉ s ∧ PathText s := by
+    intro s hs
+    rw [hL] at hs
+    simp only [List.mem_map] at hs
+    obtain ⟨_, _, rfl⟩ := hs
+    exact ⟨by decide, pathText_dotdot⟩
+  obtain ⟨hpt, hfc, hsS, hrelp⟩ := renderRel_props L hLns
+  have wfr := wf_pathQF (renderRel L) (split a).query (split a).fragment hpt hfc hsS wA.query
+  obtain ⟨R, hRdef⟩ : ∃ R, R = recompose (pathQF (renderRel L) (split a).query (split a).fragment) := ⟨_, rfl⟩
+  rw [← hRdef] at hrel er'
+  have hsplit : split R = pathQF (renderRel L) (split a).query (split a).fragment := by
+    rw [hRdef]; exact Lemmas.split_recompose _ wfr
+  have hvr : Matches G.reference R := by rw [er']; exact vr'
+  have hRne : renderRel L ≠ [] := renderRel_ne_nil L hLne0 (fun s hs => (hLns s hs).1)
+  have hS : splitSlash (renderRel L) = L ∨ splitSlash (renderRel L) = segDot :: L :=
+    splitSlash_renderRel L hLne0 (fun s hs => (hLns s hs).1)
+  have hskL : symSkipsGo true bs L = false := by
+    rw [hL]
+    exact noSkip_nonempty true _ _ (by
+      intro s hs
+      simp only [List.mem_map] at hs
+      obtain ⟨_, _, rfl⟩ := hs; decide)
+  have hsk : symSkipsGo true (nsegsOf true (segs (split b).path).dropLast) (splitSlash (renderRel L)) = false := by
+    rw [← he0, ← hbs]
+    rcases hS with e | e <;> rw [e]
+    · exact hskL
+    · simp only [symSkipsGo]
+      have : (segDot != segDot && segDot != segDotDot && segDot.isEmpty && bs.isEmpty) = false := by simp
+      rw [this]
+      simp only [Bool.false_eq_true, if_false]
+      have hp : (listSymPush true bs segDot).1 = bs := by simp [listSymPush]
+      rw [hp]
+      exact hskL
+  have hres := resolve_relative_authority G ok okp b R ab hb hvr (by rw [hsplit]; rfl) (by rw [hsplit]; rfl)
+    (by rw [hsplit]; exact hRne) (by rw [hsplit]; exact hrelp) hab (by rw [hsplit]; exact hsk)
+  refine ⟨R, _, hrel, hres, ?_⟩
+  have hrd := removeDots_merge (split b).path (renderRel L) hBab hRne hsk
+  have hwalk : walk (nsegsOf true (segs (split b).path).dropLast) (splitSlash (renderRel L)) = [] := by
+    rw [← he0, ← hbs]
+    have hw : walk bs L = [] := by
+      rw [hL]
+      have := walk_ups bs [] (by simpa using hdfB)
+      simpa using this
+    rcases hS with e | e <;> rw [e]
+    · exact hw
+    · rw [walk_dot]; exact hw
+  rw [hwalk] at hrd
+  simp only [List.isEmpty_nil, Bool.not_true, Bool.and_false, Bool.false_eq_true, if_false, List.append_nil,
+    joinSlash] at hrd
+  obtain ⟨sb, hsb⟩ : ∃ sb, (split b).scheme = some sb := by
+    have := ((C02.full_iff_scheme G ok b).mp hb).2
+    exact Option.isSome_iff_exists.mp this
+  have hT : resolveSpec b R = { sap sb ab [cSlash] with
+      query := (split a).query, fragment := (split a).fragment } := by
+    have hpe : (renderRel L).isEmpty = false := by cases h : renderRel L <;> simp_all
+    simp only [resolveSpec, transform, hsplit, pathQF, hpe, Bool.false_eq_true, if_false, hrelp, hab,
+      Option.isSome_some, hrd, hsb, sap]
+  have hsaok : SAOk sb ab := ⟨wB.scheme sb hsb, wB.authority ab hab⟩
+  have wfT0 := wf_sap sb ab [cSlash] hsaok pathText_lit_slash (.inr ⟨_, rfl⟩)
+  have wfT : WF { sap sb ab [cSlash] with
+      query := (split a).query, fragment := (split a).fragment } :=
+    { scheme := wfT0.scheme, authority := wfT0.authority, path := wfT0.path, query := wA.query,
+      abempty := wfT0.abempty, noSS := wfT0.noSS, noColon := wfT0.noColon }
+  have hsT := Lemmas.split_recompose _ wfT
+  rw [hT]
+  unfold key
+  rw [hsT]
+  simp only [sap, Option.map_some, haa, hsch, hsb, hauth]
+  congr 1
+  unfold pathKey
+  rw [hpa]
+  have h1 : isAbs [cSlash] = true := rfl
+  have h2 : nsegs [cSlash] = [] := by decide
+  rw [h1, h2, hroot]
 
 end
 
